@@ -30,7 +30,7 @@ from vmon.oracles import so3
 
 PROP = "C10"
 RULE = ("cases = generated particle lists (1..100 particles; stratified over orientation kinds incl. gimbal lock, position "
-        "kinds incl. negative/large/half-integer ties, identifier/index layouts) x symmetry order n (1..64; divisors and "
+        "kinds incl. negative/large/half-integer ties, parents with all shifts exactly 0, identifier/index layouts) x symmetry order n (1..64; divisors and "
         "non-divisors of 360) x spelling ('Cn','cn',int,integral float,np.int64,np.float64; spelling of case i = (i // #classes) mod 6) x offset "
         "s (generic, in-plane, on-axis, zero, integer lists/tuples); non-trivial = n >= 2 and s has a non-zero in-plane "
         "component (n distinct poses at n distinct places); distinct by digest of (n, spelling, #particles, s, class, first pose); "
@@ -56,7 +56,7 @@ ASSUMPTIONS = [
 
 CLASSES = ["divisor", "nondivisor", "n1", "n_33_64", "on_axis", "zero_offset", "inplane_offset", "int_offset",
            "single_particle", "many_particles", "gimbal", "near_gimbal", "wide_angles", "half_ties", "large_signed_pos",
-           "odd_ids_index"]
+           "odd_ids_index", "zero_shift"]
 SPELLINGS = ["Cn", "cn", "int", "float", "np.int64", "np.float64"]
 CLAUSES = ["rows_per_parent", "subunit_index", "orientation", "position", "unique_ids", "inherited", "integral"]
 NONDIV = [n for n in range(1, 65) if 360 % n]
@@ -66,12 +66,12 @@ DIV = [n for n in range(1, 65) if 360 % n == 0]
 def plan(tier):
     if tier == "quick":
         call_min = 700
-        return dict(n_cases=320, shards=1, classes=CLASSES, timeout_s=600,
+        return dict(n_cases=340, shards=1, classes=CLASSES, timeout_s=600,
                     min_evals=dict({c: call_min for c in CLAUSES}, recentre=call_min, back_to_centre=700, z_orbit=700,
                                    spelling_agree=400, on_axis_coincide=80),
                     min_anchor_calls={"Motl.split_in_asymmetric_subunits": call_min})
     call_min = 4800
-    return dict(n_cases=2400, shards=16, classes=CLASSES, timeout_s=3000,
+    return dict(n_cases=2550, shards=16, classes=CLASSES, timeout_s=3000,
                 min_evals=dict({c: call_min for c in CLAUSES}, recentre=call_min, back_to_centre=4800, z_orbit=4800,
                                spelling_agree=2400, on_axis_coincide=500),
                 min_anchor_calls={"Motl.split_in_asymmetric_subunits": call_min})
@@ -114,6 +114,11 @@ def _split_post(ctx, A, OLD, result):
         ctx.extra["output_cells_exactly_at_half_tie"] = ctx.extra.get("output_cells_exactly_at_half_tie", 0) + int((np.abs(sh) == 0.5).sum())
         ctx.extra["output_rows_with_negative_coordinate"] = ctx.extra.get("output_rows_with_negative_coordinate", 0) + int((xyz < 0).any(axis=1).sum())
         ctx.extra["output_rows_judged"] = ctx.extra.get("output_rows_judged", 0) + len(out)
+        psh = OLD["parent"][["shift_x", "shift_y", "shift_z"]].to_numpy(dtype=float)
+        pxyz = OLD["parent"][["x", "y", "z"]].to_numpy(dtype=float)
+        z = (psh == 0).all(axis=1)
+        ctx.extra["parents_with_all_shifts_zero"] = ctx.extra.get("parents_with_all_shifts_zero", 0) + int(z.sum())
+        ctx.extra["such_parents_with_non_integer_xyz"] = ctx.extra.get("such_parents_with_non_integer_xyz", 0) + int((z & (pxyz != np.round(pxyz)).any(axis=1)).sum())
     except Exception:
         pass
 
@@ -271,6 +276,23 @@ def gen(ctx, i, cls):
         df["shift_x"], df["shift_y"], df["shift_z"] = sh[:, 0], sh[:, 1], sh[:, 2]
     if cls == "gimbal" and rng.random() < 0.3:
         df["phi"] = 0.0; df["psi"] = 0.0; df["theta"] = 0.0      # the identity orientation
+    # parents whose three shifts are all exactly 0 (integer and non-integer x,y,z): the whole list in class zero_shift, a
+    # fraction of the particles everywhere else; a few more with only one or two shift components exactly 0
+    rz = ctx.rng(i, 3)
+    zero = np.ones(N, dtype=bool) if cls == "zero_shift" else rz.random(N) < 0.2
+    if cls != "zero_shift" and N >= 2 and rz.random() < 0.5:
+        zero[int(rz.integers(0, N))] = True
+    for c in ("shift_x", "shift_y", "shift_z"):
+        df.loc[zero, c] = 0.0
+        part = ~zero & (rz.random(N) < 0.1)
+        df.loc[part, c] = 0.0
+    if cls == "zero_shift":
+        mode = int(rz.integers(0, 3))                  # 0: integer x,y,z   1: non-integer   2: mixed within the list
+        if mode != 1:
+            m = np.ones(N, dtype=bool) if mode == 0 else rz.random(N) < 0.5
+            for c in ("x", "y", "z"):
+                df.loc[m, c] = np.round(df.loc[m, c])
+    n_zero = int(zero.sum())
     index = None
     if cls == "odd_ids_index" or rng.random() < 0.15:
         df["subtomo_id"] = rng.choice(np.arange(1, max(10 ** int(rng.integers(2, 7)), 3 * N)), size=N, replace=False).astype(float)
@@ -283,7 +305,7 @@ def gen(ctx, i, cls):
             "on_axis": on_axis}
     case["summary"] = {"n": n, "symmetry": repr(spell(n, sp)), "alt": repr(spell(n, alt)), "particles": N,
                        "offset": [float(x) for x in s], "offset_container": kind, "orientation_kind": ori,
-                       "index": "default" if index is None else "odd", "class": cls,
+                       "index": "default" if index is None else "odd", "class": cls, "parents_with_all_shifts_zero": n_zero,
                        "row0": {k: float(df[k].iloc[0]) for k in ("subtomo_id", "x", "y", "z", "shift_x", "shift_y", "shift_z",
                                                                    "phi", "theta", "psi")}}
     return case
@@ -350,6 +372,9 @@ def extra(ctx):
         rng = ctx.rng(10 ** 6 + n, 7)
         N = int(rng.integers(2, 5))
         df = gens.motl_table(rng, N, tomos=2, ori="mixed", signed=bool(rng.integers(0, 2)))
+        df.loc[0, ["shift_x", "shift_y", "shift_z"]] = 0.0                    # all shifts exactly 0, non-integer x,y,z
+        df.loc[1, ["shift_x", "shift_y", "shift_z"]] = 0.0                    # all shifts exactly 0, integer x,y,z
+        df.loc[1, ["x", "y", "z"]] = np.round(df.loc[1, ["x", "y", "z"]].to_numpy(dtype=float))
         s = rng.uniform(-25, 25, 3)
         if abs(s[0]) + abs(s[1]) < 1.0:
             s[0] += 5.0
